@@ -31,9 +31,9 @@ func resetReason(p *Prog, a *Atom) string {
 	t141 := p.Tag("tagResetSeqNumFlag")
 	if a.Rel == "" && a.Val && a.B != nil {
 		if a.B.Kind == "field" {
-			switch a.B.Field.Name() {
+			switch cn(a.B.Field) {
 			case "ResetOnLogon", "ResetOnLogout", "ResetOnDisconnect":
-				return a.B.Field.Name()
+				return cn(a.B.Field)
 			}
 		}
 		// resetSeqNumFlag.Bool() / the FIXBoolean itself read from tag 141
@@ -65,7 +65,7 @@ func chainReasons(p *Prog, site ssa.Instruction, depth int, seen map[*ssa.Functi
 	if fn.Parent() != nil {
 		fn = TopFunc(fn)
 	}
-	if fn.Object() != nil && fn.Object().Exported() && fn.Signature.Recv() == nil && fn.Name() == "ResetSession" {
+	if fn.Object() != nil && fn.Object().Exported() && fn.Signature.Recv() == nil && fnName(fn) == "ResetSession" {
 		return true, []string{"explicit ResetSession API"}, ""
 	}
 	if depth >= 8 || seen[fn] {
@@ -247,7 +247,7 @@ func c07R3(c *Ctx) {
 			for _, cj := range d.Cs {
 				hasFlag, hasNotSent := false, false
 				for _, a := range cj {
-					if a.Rel == "" && a.Val && a.B.Kind == "field" && strings.HasPrefix(a.B.Field.Name(), "ResetOn") {
+					if a.Rel == "" && a.Val && a.B.Kind == "field" && strings.HasPrefix(cn(a.B.Field), "ResetOn") {
 						hasNotSent = true // reset for a configured reason, independent of the flag
 					}
 					if a.B != nil && a.Val && a.B.Mentions(func(x *Org) bool { return (x.Kind == "outarg" || x.Kind == "call") && x.ArgConstInt(0, t141) }) {
